@@ -856,3 +856,9 @@ Definition block_p := (list tab_entry * list (list Z * list (list Z)))%type.
 
 Definition check_block_p (fl : list Z) (ucz : Z) (alpha : list Z) (b : block_p) : bool :=
   forallb (check_prefix_p (ifs_of_packed fl) (negb (ucz =? 0)) (map op_of_packed alpha) (fst b)) (snd b).
+
+(* example data for the non-vacuity Examples of Props/C14.v *)
+Definition ex_ifs : list iface :=
+  [ {| i_inc := None; i_out := Some true |};
+    {| i_inc := Some false; i_out := None |};
+    {| i_inc := Some true; i_out := None |} ].
